@@ -177,10 +177,14 @@ def sim_monitor(prog, meta, out):
                 return ("ipc-count", o)
             if w[0] in ("ipcwcb", ) or (w[0] == "ipcread" and "err" in d): return ("ipc-error", o)
         if reads != len(kinds) or gots != len(kinds): return ("ipc-lost", f"sent {len(kinds)} received {reads} claimed {gots}")
-    # --- refusal table
+    return wcheck_monitor(out)
+
+
+def wcheck_monitor(out):
+    """refusal table of uv_write2 / uv_try_write2 (also evaluated on the partial log of a crashed run)"""
     for o in out:
         w = o.split()
-        if w[0] != "wcheck": continue
+        if not w or w[0] != "wcheck" or len(w) < 5: continue
         d = kv(o); t, ww = int(d["try_write2"]), int(d["write2"])
         exp = (-22, -22) if w[1] == "plain" else ((1, 0) if w[2] == "good" else (-9, -9))
         if t != exp[0]: return ("try-write2-handle-" + w[1] + "-" + w[2], f"uv_try_write2 on {w[1]} pipe with {w[2]} handle returned {t}, expected {exp[0]}")
@@ -306,6 +310,10 @@ def one(ctx, exe, prog, meta, diff=True):
     rc, out, err = run_case(ctx, exe, prog)
     ctx.count()
     if rc != 0:
+        bad = wcheck_monitor(out)
+        if bad:
+            ctx.violation(bad[0], "C07: " + bad[1] + f" (then the harness died: {err[-200:].strip()})", {"mode": "sim", "prog": prog, "drained": sorted(meta["drained"])})
+            return False
         ctx.violation("sim-crash", f"C07 simulator exited {rc}: {err[-700:]}", {"mode": "sim", "prog": prog, "drained": sorted(meta["drained"])})
         return False
     try:
